@@ -7,6 +7,7 @@ import (
 	"context"
 	"fmt"
 	"os"
+	"regexp"
 	"runtime"
 	"sort"
 	"strings"
@@ -243,8 +244,13 @@ func (c *c17Ctx) violate(class string, feats map[string]string, what string, det
 	if oc := os.Getenv("C17_CLASS"); oc != "" && !strings.Contains(oc, class) { // debugging aid
 		return
 	}
-	if oc := os.Getenv("C17_CAUSE"); oc != "" && !strings.Contains(feats["cause"], oc) { // debugging aid
-		return
+	if oc := os.Getenv("C17_MATCH"); oc != "" { // debugging aid: regexp over "class cause trigger via"
+		if ok, _ := regexp.MatchString(oc, class+" "+feats["cause"]+" "+feats["trigger"]+" "+feats["via"]); !ok {
+			if !(class == "listed_without_data" && feats["cause"] != "" && !strings.Contains(feats["cause"], "unknown") && !strings.Contains(feats["cause"], "one_delete")) {
+				c.bad = true
+			}
+			return
+		}
 	}
 	soft := class == "listed_without_data" && feats["cause"] != "" && !strings.Contains(feats["cause"], "unknown") && !strings.Contains(feats["cause"], "one_delete")
 	if soft {
@@ -1171,9 +1177,9 @@ func TestC17(t *testing.T) {
 		"cells written by a write that overlaps the running delete's range are accepted present or absent",
 		"the _measurement terms handed to the engine next to the predicate are derived as http/delete_handler.go decodeDeleteRequest does")
 	r.Trust("verifhook points in tsdb/engine/tsm1/engine.go deleteSeriesRange")
-	nHist := r.N(60, 1000)
-	nSched := r.N(20, 240)
-	nStress := r.N(6, 60)
+	nHist := r.N(60, 600)
+	nSched := r.N(20, 200)
+	nStress := r.N(6, 40)
 	phase := map[string]float64{}
 	only := os.Getenv("VERIF_ONLY") // e.g. "hist:16": run one case (debugging / replay)
 	sel := func(kind string, i int) bool { return only == "" || only == fmt.Sprintf("%s:%d", kind, i) }
@@ -1191,7 +1197,12 @@ func TestC17(t *testing.T) {
 			}
 		}()
 	}
-	for i := 0; i < nHist; i++ {
+	hlo, hhi := 0, nHist
+	if hr := os.Getenv("VERIF_HIST_RANGE"); hr != "" { // debugging aid: "lo-hi", histories only
+		fmt.Sscanf(hr, "%d-%d", &hlo, &hhi)
+		nSched, nStress = 0, 0
+	}
+	for i := hlo; i < hhi; i++ {
 		if sel("hist", i) {
 			jobs <- i
 		}
